@@ -84,6 +84,7 @@ func checkC11(P *core.Program, R *core.Report) {
 	R.Explanation = "Accounted pool = reserve + liabilities − custody, decided structurally: (wiring) accountedpool's AmmHooks and PerpetualHooks are registered in app/keepers and its AmmHooks precedes perpetual's; (formula) PerpetualUpdates stores into accountedPool.TotalTokens[i] the amount ammBalance + L − C (plus TPC − TPL only on the flag edge) with the operands taken from GetAmmPoolBalance / GetPerpetualPoolBalances of its own arguments, stores total − ammBalance into the NonAmmPoolTokens element of the record itself (not a range copy) and persists the record on every success path; UpdateAccountedPoolOnAmmChange stores amm + recorded non-amm part into TotalTokens[j]; " +
 		"(F1 freshness) every amm pool handed to a perpetual hook call is a parameter, or a load after which no callee stores the amm pool through its own load (this rule reported F-11a); (F2 coverage) from every call that can change perpetual custody/liabilities or move AMM balances through the perpetual back door, every success path of the enclosing function — or, failing that, of every caller up to the consensus roots — passes a perpetual hook call (this rule reported F-11b). Take-profit terms when the parameter is enabled are covered only by the formula shape."
 	subjects := P.Reach(P.FindRoots().Consensus())
+	checkNonAmmEntries(P, R)
 	// wiring
 	w := hookWiring(P)
 	amm := w["x/amm/keeper"]
@@ -664,5 +665,87 @@ func checkAmmHookCoverage(P *core.Program, R *core.Report) {
 		if n == 0 {
 			R.Add("C11-amm-hook-coverage", h.fn, "SetPool", P.Pos(fn.Pos()), false, "no SetPool found (anchor changed)")
 		}
+	}
+}
+
+// checkNonAmmEntries (C11-nonamm-entries): PerpetualUpdates and the amm refresh only UPDATE
+// the entries of NonAmmPoolTokens that exist (a missing entry reads as zero), so the record
+// must be created with one entry per pool asset — zero amounts included.  The value that
+// reaches SetAccountedPool in OnLeverageLpPoolEnable must therefore be a raw slice of
+// len(PoolAssets) filled by index; sdk.Coins constructors and arithmetic (NewCoins, Add,
+// Sub) silently drop zero-amount coins and would create the record empty.
+func checkNonAmmEntries(P *core.Program, R *core.Report) {
+	const rule = "C11-nonamm-entries"
+	const key = "x/accountedpool/keeper.Keeper.OnLeverageLpPoolEnable"
+	fn := P.Fn(key)
+	if fn == nil {
+		R.Add(rule, key, "function", "-", false, "unresolved anchor")
+		return
+	}
+	ff := P.Facts(fn)
+	var setCalls []ssa.Instruction
+	for _, c := range core.Calls(fn) {
+		if core.CalleeName(c.Common()) == "SetAccountedPool" {
+			setCalls = append(setCalls, c.(ssa.Instruction))
+		}
+	}
+	var stores []*ssa.Store
+	for _, b := range fn.Blocks {
+		for _, in := range b.Instrs {
+			if st, ok := in.(*ssa.Store); ok {
+				if fa, ok := st.Addr.(*ssa.FieldAddr); ok && core.FieldName(fa.X.Type(), fa.Field) == "NonAmmPoolTokens" {
+					stores = append(stores, st)
+				}
+			}
+		}
+	}
+	if len(setCalls) == 0 || len(stores) == 0 {
+		R.Add(rule, key, "NonAmmPoolTokens at creation", P.Pos(fn.Pos()), false, "no store of the field or no SetAccountedPool call (anchor changed)")
+		return
+	}
+	isStore := func(in ssa.Instruction) bool {
+		for _, s := range stores {
+			if in == ssa.Instruction(s) {
+				return true
+			}
+		}
+		return false
+	}
+	n := 0
+	for _, st := range stores {
+		// can this store be the last one before the record is persisted?
+		_, last := core.ReachesWithout(fn, st, func(in ssa.Instruction) bool {
+			for _, s := range setCalls {
+				if in == s {
+					return true
+				}
+			}
+			return false
+		}, isStore)
+		if !last {
+			continue
+		}
+		n++
+		v := ff.Fwd(st.Val)
+		for {
+			if ct, ok := v.(*ssa.ChangeType); ok {
+				v = ff.Fwd(ct.X)
+				continue
+			}
+			break
+		}
+		good := false
+		if mk, ok := v.(*ssa.MakeSlice); ok {
+			if l, isLen := lenOf(ff, mk.Len); isLen {
+				if _, isPA := fieldLoad(ff, l, "PoolAssets"); isPA {
+					good = true
+				}
+			}
+		}
+		R.Add(rule, key, "NonAmmPoolTokens stored at creation", P.Pos(P.InstrPos(st)), good,
+			"one entry per pool asset, zero amounts included: a raw slice of len(PoolAssets) filled by index (sdk.Coins constructors drop zero coins)")
+	}
+	if n == 0 {
+		R.Add(rule, key, "NonAmmPoolTokens stored at creation", P.Pos(fn.Pos()), false, "no store of the field reaches SetAccountedPool")
 	}
 }
